@@ -51,12 +51,17 @@ def register(claim, not_yet):
           'Lean 4 adjointness theorems (inner-product identities) + exact autograd correspondence + Jacobian oracle', 'DESIGN.md §4 C05')
     claim('C06',
           'Proved: q2c and c2q are mutual adjoints on every image; colfilter with a symmetric odd-length filter is self-adjoint on columns of every length (its matrix K(i,k) = sum_d c(d)[sym(i+d)=k] '
-          'is symmetric: colfilter_self_adjoint, Kf_symm), also row- and column-wise on images; hence FWD_J1.backward is the adjoint of fwd_j1 for the implementation models on every even-sized '
-          'image, every low-pass and band cotangent (fwdJ1_backward_adjoint). The backward passes are by construction the opposite transform with the same buffers (level 1) or exchanged trees '
-          '(level >= 2); that the level >= 2 passes are adjoints (tree b = reverse of tree a, C18) is decided by the exact correspondence of FWD_J1/FWD_J2PLUS/INV_J1/INV_J2PLUS.backward through '
+          'is symmetric: colfilter_self_adjoint, Kf_symm), also row- and column-wise on images; hence FWD_J1.backward is the adjoint of fwd_j1 and INV_J1.backward of inv_j1 for the implementation models on every even-sized '
+          'image, every low-pass and band cotangent (fwdJ1_backward_adjoint, INV_J1_backward_adjoint). LEVELS >= 2: for every filter h of even length (ANY values, no orthogonality), both highpass flags, every column length '
+          'that is a positive multiple of 4 and every cotangent, <coldfilt(x, h, reverse h), g> = <x, colifilt(g, reverse h, h)> (C06Q.coldfilt_colifilt_adjoint) - the exchange of trees a/b that '
+          'FWD_J2PLUS.backward / INV_J2PLUS.backward perform IS the transpose; proved over any commutative ring via the tap forms of both stages (all 16 combinations of output phase, parity of m/2 and '
+          'flag: lineD_taps, lineE_taps), the transposition of one tap on the periodic line (transpose_tap) and the reflection equivariance of the interpolating stage; lifted to images and to the '
+          'implementation models: FWD_J2PLUS.backward is the adjoint of fwd_j2plus and INV_J2PLUS.backward of inv_j2plus on every image with sides positive multiples of 4 (fwdJ2_backward_adjoint, '
+          'INV_J2PLUS_backward_adjoint), given only that tree a is the time reverse of tree b (exact for all shipped tables, C18). The composition over the pyramid, the layouts, masks and requires_grad subsets are decided by the exact correspondence of FWD_J1/FWD_J2PLUS/INV_J1/INV_J2PLUS.backward through '
           'torch.autograd (all layouts, skip flags, grad masks) and by the Jacobian oracle on both modules for the 20 named pairs and structured integer filters, incl. losses over subsets of the '
           'outputs and repeated pull-backs through one retained graph.' + TIE + BRK,
-          'Lean 4 adjointness theorems (q2c/c2q, symmetric colfilter, level-1 backward pass) + exact autograd correspondence + Jacobian oracle', 'DESIGN.md §4 C06', 'level >= 2 adjointness is oracle-decided: partial.')
+          'Lean 4 adjointness theorems (q2c/c2q, symmetric colfilter, q-shift coldfilt/colifilt with exchanged trees, level-1 and level>=2 backward passes of the implementation models) + exact autograd correspondence + Jacobian oracle', 'DESIGN.md §4 C06',
+          'pyramid composition / layouts / grad subsets are correspondence- and oracle-decided: partial.')
     claim('C07',
           'Proved for all sizes: correlation (any stride/dilation), transposed convolution, every gather through an index table that depends on the length only (Python slices with any step, '
           'symm_pad_1d / periodic / reflect index vectors), zero padding, take/drop, concatenation, roll, the wrap-around fold, element-wise sums and the stack+view interleavings are linear list '
